@@ -119,6 +119,14 @@ CHECKS = {
             'and the exception type/fields seen by the caller are compared with what the other side did.',
             'Scripted provider (vf/fakedul.py); what the provider itself does with these PDUs is C04/C05.',
             'fakedul', 'DESIGN.md#C14'),
+    'C15': (True, 'exploration',
+            'Hypothesis-generated data sets and configurations through the whole stack over real loopback TCP with real threads; end-to-end equality and file-integrity oracle',
+            'Generated data sets (nested sequences, odd lengths, up to ~30 fragments), 3 transfer syntaxes, '
+            'asymmetric maximum PDU lengths, memory/file sources, temp-file / in-memory / directory reception, all '
+            'handler outcomes, repeated instance UIDs: what the handler received must equal what was sent, the '
+            'status must come back unchanged, and in the storage directory every instance must keep its own intact file.',
+            'OS-chosen schedules (sampled); time-outs are inconclusive; equality by canonical re-encoding with pydicom. '
+            'The deterministic counterpart of the data path is C06+C07+C10.', 'loopback', 'DESIGN.md#C15'),
     'C16': (True, 'exploration',
             'Hypothesis over match sequences, identifiers, transfer syntaxes and PDU sizes; provider and user side against independent codecs',
             'Generated match sequences (0-12, both pending codes) and identifiers run through qr_find_scp / '
@@ -146,6 +154,16 @@ CHECKS = {
             'ends exactly at the final response.',
             '"performed" = completed or completed+failed+warning; final C-MOVE status unconstrained.',
             'fakedul', 'DESIGN.md#C19'),
+    'C20': (True, 'exploration',
+            'loopback stress with N concurrent clients (sampled OS schedules) + Hypothesis-drawn deterministic interleavings of several acceptors under a baton scheduler (differential against solo runs)',
+            'Part a: 4-32 client threads with their own titles, syntaxes, PDU sizes, class subsets and data, a third '
+            'aborting mid-transfer, against one server over real TCP; every handler call must be attributable to the '
+            'right association with the right context and content, survivors unaffected. Part b: 2-4 acceptor bodies '
+            'sharing one AE run on scripted providers, interleaved at every provider send/receive in a '
+            'Hypothesis-drawn (shrinkable, replayable) order; each must behave exactly as when run alone. '
+            '_new_msg_id() is checked from 16 concurrent threads.',
+            'Races finer than provider primitives are only sampled (part a), not enumerated.',
+            'loopback+fakedul', 'DESIGN.md#C20'),
     'C18': (True, 'exploration',
             'exhaustive enumeration against an independent status table + metamorphic precedence test',
             'All 65536 codes x 24 command choices are constructed and compared with a table '
@@ -213,6 +231,8 @@ ENGINES = [
      'kind_free_text': 'real DULServiceProvider.run() executed in the calling thread against simulated socket/select/clock/user queue; scripted scenarios'},
     {'name': 'ulmodel', 'path': 'vf/ulmodel.py', 'serves_properties': ['C04', 'C05', 'C12', 'C13'],
      'kind_free_text': 'executable PS3.8 Table 9-10 protocol machine (123 cells, 28 actions) with ARTIM, transport and reassembly tracking'},
+    {'name': 'loopback', 'path': 'vf/loopback.py', 'serves_properties': ['C15', 'C20'],
+     'kind_free_text': 'real loopback TCP on ephemeral ports with real threads; per-case temp dirs; time-outs are inconclusive'},
     {'name': 'fakedul', 'path': 'vf/fakedul.py', 'serves_properties': ['C09', 'C10', 'C11', 'C14', 'C16', 'C17', 'C19', 'C20'],
      'kind_free_text': 'scripted primitive-level provider replacing DULServiceProvider under the real ACSE/service code; wire observed via reference codecs'},
     {'name': 'refcmd', 'path': 'vf/refcmd.py', 'serves_properties': ['C06', 'C07', 'C08', 'C16', 'C17', 'C19'],
